@@ -63,6 +63,9 @@ type c13Case struct {
 	Want    string       `json:"want,omitempty"` // module name to Read
 	Faults  []fsim.Fault `json:"faults,omitempty"`
 	PathSep bool         `json:"path_as_one_arg,omitempty"`
+	// PriorRead: another module is read from the current directory first (a
+	// successful direct read appends its directory to the search path).
+	PriorRead bool `json:"prior_read,omitempty"`
 
 	// split
 	Scenario *model.Scenario `json:"scenario,omitempty"`
@@ -557,6 +560,13 @@ func genFiles(t *tape.Tape) *c13Case {
 			}
 		}
 	}
+	if t.Chance(1, 3) {
+		c.PriorRead = true
+		if !have["other.yang"] {
+			have["other.yang"] = true
+			c.Files = append(c.Files, fileSpec{Path: "other.yang", Module: "other"})
+		}
+	}
 	if t.Chance(1, 4) && len(c.Files) > 0 {
 		for k := t.Range(1, 2); k > 0; k-- {
 			f := c.Files[t.Intn(len(c.Files))]
@@ -685,6 +695,21 @@ func runFiles(c *c13Case, o *core.Outcome) {
 		o.Nontrivial = true
 	}
 	spec := &world.Spec{Disk: disk, Faults: c.Faults, Sticky: true, Path: c.Path, Sched: maporder.Canonical(), Ops: []world.Op{{Op: "read", Name: c.Want}}}
+	prior := 0
+	if c.PriorRead {
+		// the faults must not hit the prior read: it only prepares the history
+		hit := false
+		for _, f := range c.Faults {
+			if fsim.Clean(f.Path) == "other.yang" || fsim.Clean(f.Path) == "." {
+				hit = true
+			}
+		}
+		if !hit {
+			spec.Ops = append([]world.Op{{Op: "read", Name: "other"}}, spec.Ops...)
+			prior = 1
+			o.Count("probe.files_after_prior_read", 1)
+		}
+	}
 	res := world.Exec(spec)
 	o.Ticks += res.Ticks
 	if p := res.FirstPanic(); p != nil {
@@ -699,9 +724,12 @@ func runFiles(c *c13Case, o *core.Outcome) {
 	if ops := res.Disk.Opened(); len(ops) > 0 {
 		opened = ops[len(ops)-1]
 	}
-	readErr := res.Ops[0].Err
+	readErr := res.Ops[prior].Err
 	// never a file of a differently named module
-	for _, p := range res.Disk.Opened() {
+	for oi, p := range res.Disk.Opened() {
+		if prior == 1 && oi == 0 && p == "other.yang" {
+			continue
+		}
 		base := path.Base(p)
 		isCand := base == c.Want+".yang" || (strings.HasPrefix(base, c.Want) && dateSuffix.MatchString(base[len(c.Want):]))
 		if !isCand {
